@@ -31,16 +31,17 @@ PROP = {'drive': ['ShapeSpec'],
              'flags, all GDEF data, all lookup orders, all sequences, wherever the reference is defined)',
              'PROVED for all inputs (C06_engine_eq_spec_ctx_partial): engine model = reference for contextual and '
              'chained contextual lookups of all six formats (mixed with any non-contextual subtables at top level) '
-             'whose NESTED lookups are pointwise, i.e. rewrite only the glyph they are applied to (GSUB 1.1 1.2 3.1 '
-             '8.1, GPOS 1.1 1.2 4.1 6.1) - a strict subclass of the length-preserving nested lookups; the proof is '
-             'the simulation stack entry (positions, actions, end position) <-> tags on the glyphs',
+             'with ONE LEVEL OF NESTING, i.e. whose nested lookups are not contextual themselves: nested single / '
+             'alternate / reverse-chaining substitution, nested multiple substitution (insertions, fixStackInsert '
+             '<-> tag inheritance), nested ligature substitution inside the window (deletions, fixStackMerge <-> the '
+             'ligature takes the tags of its first component), nested single and pair adjustment, nested mark '
+             'attachment; the proof is the simulation stack entry (positions, actions, end position) <-> tags',
              'NOT PROVED, bounded-checked only (C06_engine_eq_spec_ctx_full is a Prop definition, no theorem): '
-             'nested lookups that change the length (multiple substitution, ligature), nested pair adjustment, and '
-             'nested contextual lookups (more than one level).  There the tie is Go = reference on generated cases '
-             '(the repository test cases of sections 1-5, scenario generators for nested insertions/deletions, '
-             'chained contexts nested in a parent window, random tables) and, in the thorough tier, exhaustive '
-             'enumeration of ALL sequences of length <= 6 over 4-glyph alphabets for about one generated lookup '
-             'list in twelve - this is bounded checking, not a theorem',
+             'nested lookups that are contextual themselves (two or more levels of nesting, stack depth >= 2).  '
+             'There the tie is Go = reference on generated cases (the repository test cases 2_13-2_19, 3_06, 3_07 '
+             'and section 4, scenario generators, chained contexts nested in a parent window, random tables) and, '
+             'in the thorough tier, exhaustive enumeration of ALL sequences of length <= 6 over 4-glyph alphabets '
+             'for about one generated lookup list in twelve - this is bounded checking, not a theorem',
              'Defined (= the reference returns a value) excludes: malformed tables (coverage index outside its '
              'array, empty multiple-substitution sequence, context format 3 without input coverage, glyph sets '
              'with non-member entries, lookups mixing type 8 with other types, lookup or sequence index out of '
@@ -68,9 +69,9 @@ PROP = {'drive': ['ShapeSpec'],
 LEVEL = {'text': 'Proof + bounded checking: an executable reference semantics of OpenType lookup application (tag-based, '
          'no positions to repair) is written in Lean from the specification text; its clauses are theorems; the '
          'engine model of C07 is proved equal to it, for ALL tables, GDEF data, flags, lookup orders and sequences, '
-         'on lookup lists without contextual subtables and on contextual lookups (all six formats) with pointwise '
-         'nested lookups; the lookup-flag filter is proved equal to the OpenType rule. For the remaining contextual '
-         'lookups (length-changing or contextual nested lookups) the real Go code is compared with the reference on generated cases and by '
+         'on lookup lists without contextual subtables and on contextual lookups (all six formats) with one level '
+         'of nesting (nested substitutions, insertions, ligatures, adjustments, mark attachment); the lookup-flag filter is proved equal to the OpenType rule. For the remaining contextual '
+         'lookups (nested lookups that are contextual themselves) the real Go code is compared with the reference on generated cases and by '
          'exhaustive enumeration of short sequences (bounded, reported as such).',
  'note': 'Trusted: Lean kernel + 3 standard axioms; the reference is a hand-written reading of the OpenType text; '
          'Go = engine model by the sampled correspondence of C07.',
